@@ -139,10 +139,11 @@ type genOpts struct {
 	allocPct     int
 	bigKey       bool
 	persistHeavy bool
-	wideFirst    bool // first batch touches every key, later ones one or two
-	blind        bool // no observation (hence no read) between labels
-	bigFirst     bool // the first batch carries one large value: later small rounds are then spliced by leveled (partial) compaction
-	nilMerge     bool // Merge operand "!" makes FullMerge return nil
+	script       []scriptStep // when set: the labels to execute, in order
+	wideFirst    bool         // first batch touches every key, later ones one or two
+	blind        bool         // no observation (hence no read) between labels
+	bigFirst     bool         // the first batch carries one large value: later small rounds are then spliced by leveled (partial) compaction
+	nilMerge     bool         // Merge operand "!" makes FullMerge return nil
 }
 
 var baseUniverse = [][]byte{
@@ -211,6 +212,77 @@ func (g *gen) ops(max int) []bop {
 		}
 	}
 	return out
+}
+
+type scriptStep struct {
+	choice int // 0 batch, 1 merger step, 2 persister step, 3 notify, 4 snap, 5 snapclose, 6 reopen
+	batch  *tbatch
+}
+
+// parseScript reads one step per line:
+//
+//	b <path> <s|d|m> <key> [<val>] ; ...   a batch; path "" or c1 or c1/d1; several ops separated by ';'
+//	m | p | n | snap | snapclose | r         merger step, persister step, notify, snapshot, close one, reopen
+func parseScript(text string) ([]scriptStep, error) {
+	var out []scriptStep
+	for _, ln := range strings.Split(text, "\n") {
+		ln = strings.TrimSpace(ln)
+		if ln == "" || ln[0] == '#' {
+			continue
+		}
+		f := strings.Fields(ln)
+		switch f[0] {
+		case "m":
+			out = append(out, scriptStep{choice: 1})
+		case "p":
+			out = append(out, scriptStep{choice: 2})
+		case "n":
+			out = append(out, scriptStep{choice: 3})
+		case "snap":
+			out = append(out, scriptStep{choice: 4})
+		case "snapclose":
+			out = append(out, scriptStep{choice: 5})
+		case "r":
+			out = append(out, scriptStep{choice: 6})
+		case "b":
+			root := &tbatch{}
+			for _, part := range strings.Split(strings.TrimPrefix(ln, "b"), ";") {
+				g := strings.Fields(part)
+				if len(g) < 3 {
+					return nil, fmt.Errorf("bad batch op %q", part)
+				}
+				node := root
+				if g[0] != "." {
+					for _, name := range strings.Split(g[0], "/") {
+						var next *tbatch
+						for _, k := range node.kids {
+							if k.name == name && k.b != nil {
+								next = k.b
+							}
+						}
+						if next == nil {
+							next = &tbatch{}
+							node.kids = append(node.kids, kid{name: name, b: next})
+						}
+						node = next
+					}
+				}
+				if g[1] == "X" { // delete the child collection named g[2] of the node at the path
+					node.kids = append(node.kids, kid{name: g[2], del: true})
+					continue
+				}
+				val := []byte{}
+				if len(g) > 3 {
+					val = []byte(g[3])
+				}
+				node.ops = append(node.ops, bop{g[1][0], []byte(g[2]), val})
+			}
+			out = append(out, scriptStep{choice: 0, batch: root})
+		default:
+			return nil, fmt.Errorf("bad script line %q", ln)
+		}
+	}
+	return out, nil
 }
 
 // existenceOnly: a batch without a single key operation, which only creates (empty) or deletes
@@ -511,9 +583,25 @@ func runCollCase(w *bufio.Writer, id int, seed uint64, cfg Config, nLabels int, 
 		if cfg.LL == "map" && pAt == "persister:begin" {
 			wFail = 6
 		}
-		switch r.pick([]int{wBatch, wMerger, wPers, wNotify, wSnap, wSnapClose, wReopen, wFail}) {
+		choice := r.pick([]int{wBatch, wMerger, wPers, wNotify, wSnap, wSnapClose, wReopen, wFail})
+		var scripted *tbatch
+		if o.script != nil {
+			// a scripted case (witness replay): the label kinds and batches are given
+			if i >= len(o.script) {
+				break
+			}
+			choice, scripted = o.script[i].choice, o.script[i].batch
+			if (choice == 1 && mAt == "") || (choice == 2 && pAt == "") {
+				return fail(fmt.Errorf("script step %d: actor not parked (merger at %q, persister at %q)", i, mAt, pAt))
+			}
+		}
+		switch choice {
 		case 0:
 			b := g.nonEmptyBatch()
+			if scripted != nil {
+				b = scripted
+				goto haveBatch
+			}
 			if o.childPct > 0 && isEmptyStack(d.Top) && isEmptyStack(d.Mid) && isEmptyStack(d.Base) && r.chance(1, 3) {
 				// everything is drained: a round that carries nothing but the creation or the
 				// deletion of a child collection (preferably one that exists, one or two levels down)
